@@ -5,11 +5,13 @@
 //   3 gating[a].set(b)   -> cursor
 // A next() that must block by the documented capacity rule (computed here from the harness' own bookkeeping, not
 // from anything the sequencer returned) is not called: the case ends with -777, like the model.  A call that does
-// not return within 5 s ends the case with -888.
+// not return within 1.5 s ends the case with -888.
 use dcl_data_structures::ring_buffer::prelude::*;
 use std::sync::mpsc;
 use std::sync::Arc;
 use std::time::Duration;
+
+pub static BLOCKED: std::sync::atomic::AtomicBool = std::sync::atomic::AtomicBool::new(false);
 
 fn drive<S: Sequencer>(mut seq: S, multi: bool, size: u64, ng: usize, ops: &[i128]) -> Vec<i128> {
     let gating: Vec<Arc<AtomicSequenceOrdered>> =
@@ -65,5 +67,12 @@ pub fn run(args: &[i128]) -> Vec<i128> {
         });
         let _ = tx.send(r.unwrap_or_else(|_| vec![-999]));
     });
-    rx.recv_timeout(Duration::from_secs(5)).unwrap_or_else(|_| vec![-888])
+    match rx.recv_timeout(Duration::from_millis(1500)) {
+        Ok(v) => v,
+        Err(_) => {
+            // the call did not return: its thread keeps spinning; answer -888 and let main() end the process after this line
+            BLOCKED.store(true, std::sync::atomic::Ordering::SeqCst);
+            vec![-888]
+        }
+    }
 }
